@@ -164,6 +164,13 @@ def invariant(ctx, im, where, first_level=True):
 
 
 def _probe(ctx, im, g, px, n0, n1, probe, pts, bad, ok, first_level):
+    # "every image produced": also through the joblib path (n_jobs given), alone and inside a collection
+    for what, out in (("transform(D, n_jobs=1)", ctx.call(im.transform, pts[:1], skew=False, n_jobs=1)),
+                      ("transform([D, D], n_jobs=1)[1]", ctx.call(im.transform, [pts[:1], pts[:2]], skew=False, n_jobs=1)[1])):
+        ctx.valid()
+        if np.asarray(out).shape != (n0, n1):
+            bad("image-shape", "%s output shape differs from the reported resolution" % what, list(np.asarray(out).shape), [n0, n1])
+            return False
     img = np.asarray(ctx.call(im.transform, pts, skew=False))
     ctx.valid()
     if img.shape != (n0, n1):
